@@ -82,18 +82,25 @@ def prepare(slot_dir, repo=None):
     dst = os.path.join(slot_dir, "repo")
     kdst = os.path.join(slot_dir, "verif_kani")
     os.makedirs(dst, exist_ok=True)
-    # checksum-based so that unchanged files keep their mtime -> cargo does not rebuild
+    # hooked files are written by us (source text + 3 hook lines) and only when their content changes, so
+    # that cargo's mtime-based fingerprints see exactly the real changes
+    hooked = {}
+    for name in sorted(os.listdir(KANI_DIR)):
+        if name.endswith(".rs"):
+            hooked[src_for_harness_file(name)] = name
+    excl = []
+    for rel in hooked:
+        excl += ["--exclude", "/" + rel]
     sh(["rsync", "-a", "--checksum", "--delete", "--exclude", "/target", "--exclude", "/.git",
         "--exclude", "/tests", "--exclude", "/util", "--exclude", "/fuzz", "--exclude", "/benches",
-        "--exclude", "/examples", "--exclude", "/fixtures",
-        repo + "/", dst + "/"])
+        "--exclude", "/examples", "--exclude", "/fixtures", "--exclude", "/Cargo.toml", "--exclude", "/.cargo"]
+       + excl + [repo + "/", dst + "/"])
     sh(["rsync", "-a", "--checksum", "--delete", "--exclude", "*.md", KANI_DIR + "/", kdst + "/"])
 
     added = []
     # --- A1 Cargo.toml
     ct_path = os.path.join(dst, "Cargo.toml")
-    ct = open(ct_path).read()
-    orig_ct = ct
+    ct = open(os.path.join(repo, "Cargo.toml")).read()
     if "[features]" not in ct:
         raise SystemExit("EXTRACT-ERROR: no [features] section in Cargo.toml")
     ct = ct.replace("[features]", "[features]\nh2_verif = []", 1)
@@ -110,21 +117,24 @@ def prepare(slot_dir, repo=None):
 
     # --- A2 module hooks
     hooks = []
-    for name in sorted(os.listdir(kdst)):
-        if not name.endswith(".rs"):
-            continue
-        rel = src_for_harness_file(name)
-        p = os.path.join(dst, rel)
-        if not os.path.exists(p):
+    for rel, name in sorted(hooked.items()):
+        srcp = os.path.join(repo, rel)
+        if not os.path.exists(srcp):
             raise SystemExit("EXTRACT-ERROR: lost anchor: %s (for harness file %s)" % (rel, name))
-        text = open(p).read()
+        text = open(srcp).read()
         hook = ('\n#[cfg(feature = "h2_verif")]\n#[path = "%s/%s"]\npub(crate) mod verif_kani;\n' % (kdst, name))
-        st = os.stat(p)
-        with open(p, "w") as f:
-            f.write(text + hook)
-        # keep the source's mtime so an unchanged tree is not recompiled
-        os.utime(p, ns=(st.st_atime_ns, st.st_mtime_ns))
+        os.makedirs(os.path.dirname(os.path.join(dst, rel)), exist_ok=True)
+        write_if_changed(os.path.join(dst, rel), text + hook)
         hooks.append(rel)
+    # a file that was hooked in an earlier run but is not any more: restore the plain source
+    stale = os.path.join(slot_dir, "hooked.list")
+    try:
+        for rel in open(stale).read().split():
+            if rel not in hooked and os.path.exists(os.path.join(repo, rel)):
+                write_if_changed(os.path.join(dst, rel), open(os.path.join(repo, rel)).read())
+    except FileNotFoundError:
+        pass
+    open(stale, "w").write("\n".join(sorted(hooked)))
     added.append("appended `mod verif_kani;` (3 guarded lines) to: " + ", ".join(hooks))
     # offline config
     os.makedirs(os.path.join(dst, ".cargo"), exist_ok=True)
